@@ -32,6 +32,21 @@ macro_rules! vprintln {
     }
 }
 
+/// Counts the execution of a code path when the `verif_hooks` feature is enabled, does nothing otherwise
+#[cfg(feature = "verif_hooks")]
+macro_rules! vhit {
+    ($f:ident) => {
+        crate::verif::hit(crate::verif::Feat::$f)
+    };
+}
+#[cfg(not(feature = "verif_hooks"))]
+macro_rules! vhit {
+    ($f:ident) => {};
+}
+
+#[cfg(feature = "verif_hooks")]
+pub mod verif;
+
 mod bit_io;
 mod common;
 pub mod decoding;
